@@ -125,21 +125,29 @@ def run(prog: Program, col: Collector, tier: str, refs: Optional[Refs] = None):
         fnode = mod.enclosing_function(node)
         f = prog.func_of(fnode) if fnode is not None else None
         good = False
+        why = f"write to the interpretation stack outside the push/pop primitives: {desc}"
         if mod is interp_mod and f is not None and f.parent is None and f.cls is None and isinstance(call, ast.Call):
-            if p.attr == "append" and len(call.args) == 1 and not call.keywords and isinstance(call.args[0], ast.Name) \
-                    and call.args[0].id in f.positional:
-                # the parameter must not be reassigned before the append
-                stores = [n for n in walk_no_nested(f.node) if isinstance(n, ast.Name) and n.id == call.args[0].id and isinstance(n.ctx, ast.Store)]
-                if not stores:
-                    good = True
-                    pushers.add(f.fq)
-                    writers.append(("push", f, call))
-            elif p.attr == "pop" and not call.args and not call.keywords:
-                good = True
+            # the primitive is located by ROLE (a top-level function of funsor.interpreter that grows / shrinks the stack);
+            # whether it grows / shrinks it at the TOP is the obligation
+            if p.attr in ("append", "insert", "extend", "__iadd__"):
+                pushers.add(f.fq)
+                writers.append(("push", f, call))
+                if p.attr == "append" and len(call.args) == 1 and not call.keywords and isinstance(call.args[0], ast.Name) \
+                        and call.args[0].id in f.positional:
+                    # the parameter must not be reassigned before the append
+                    stores = [n for n in walk_no_nested(f.node) if isinstance(n, ast.Name) and n.id == call.args[0].id and isinstance(n.ctx, ast.Store)]
+                    good = not stores
+                    if stores:
+                        why = "the value appended is not the parameter as passed (it is reassigned inside the push primitive)"
+                else:
+                    why = f"the push primitive does not append its parameter on top of the stack: {norm(call)}"
+            elif p.attr in ("pop", "remove", "clear"):
                 poppers.add(f.fq)
                 writers.append(("pop", f, call))
-        col.check(good, construct, f"sanctioned writer ({desc})",
-                  f"write to the interpretation stack outside the push/pop primitives: {desc}", mod.loc(node))
+                good = p.attr == "pop" and not call.args and not call.keywords
+                if not good:
+                    why = f"the pop primitive does not remove exactly the top of the stack: {norm(call)}"
+        col.check(good, construct, f"sanctioned writer ({desc})", why, mod.loc(node))
     # reflective access by name
     for mod in prog.all_modules(thorough):
         for n in ast.walk(mod.tree):
